@@ -58,7 +58,15 @@ def run(ctx, res):
     cases += scenarios.corpus_cases(ID)
     cases += scenarios.directed_cases(ctx, "c08s", nd - len(cases), scenarios.sleep_history, scenarios.SLEEP_VERSIONS)
     cases += gwcheck.gen_cases(ctx, "c08g", n - nd, length=(20, 60), versions=scenarios.SLEEP_VERSIONS)
-    recs = gwcheck.run_cases(ctx, res, cases, ["c08"], SCOPE, "c08")
+    # a third of the histories: persistence and a clean stop + start in the middle (pickle stores more than json)
+    import shutil
+    from harness.gen import scenarios_a
+    scenarios.with_restarts(ctx, cases, "c08")
+    root = scenarios_a.assign_persist(cases, "c08", lambda i, c: c.pop("_fmt", None))
+    try:
+        recs = gwcheck.run_cases(ctx, res, cases, ["c08"], SCOPE, "c08")
+    finally:
+        shutil.rmtree(root, ignore_errors=True)
     keys = {"wake:both": "flush_with_both_parts", "wake:withheld>=2": "flush_with_2_or_more_withheld",
             "wake:desired>=2": "flush_with_2_or_more_desired", "wake:repeated": "repeated_wakeup",
             "desired:confirmed": "desired_value_confirmed", "req:desired/withheld": "req_answered_with_desired_value",
@@ -78,4 +86,13 @@ def run(ctx, res):
 
 
 def replay(ctx, case):
+    c0 = case["case"] if "case" in case else case
+    if c0["cfg"].get("persist"):
+        import shutil
+        from harness.gen import scenarios_a
+        c, root = scenarios_a.relocated(c0, "c08")
+        try:
+            return gwcheck.replay_case(ctx, c)
+        finally:
+            shutil.rmtree(root, ignore_errors=True)
     return gwcheck.replay_case(ctx, case)
